@@ -36,6 +36,7 @@ type recLogger struct {
 	Infos       int
 	Truncs      int // "Finished truncate" lines of the weight-triggered truncation loop
 	TruncStarts int
+	stopping    bool // the node's context has been cancelled: whatever its loops log now is shutdown noise
 	keep        bool
 	Lines       []string
 }
@@ -58,7 +59,12 @@ func (l *recLogger) Info(msg string) {
 }
 func (l *recLogger) Warn(msg string)  { l.add("warn", msg) }
 func (l *recLogger) Error(msg string) { l.Errors++; l.add("error", msg) }
-func (l *recLogger) Fatal(msg string) { l.Fatals = append(l.Fatals, msg); l.add("fatal", msg) }
+func (l *recLogger) Fatal(msg string) {
+	if !l.stopping {
+		l.Fatals = append(l.Fatals, msg)
+	}
+	l.add("fatal", msg)
+}
 
 // noTele is the telemetry stub.
 type noTele struct{}
@@ -237,6 +243,7 @@ type World struct {
 	Ops                int
 	taskPanicReported  map[int]bool
 	stuck              []*opHandle
+	truncFailed        map[int]bool // nodes on which a synchronous truncation returned a real error (production exits there)
 }
 
 // CreatedRec remembers a vertex created by a node (CreateLeaf success).
@@ -362,6 +369,9 @@ func (w *World) stopNode(i int) {
 		return
 	}
 	n.Alive = false
+	if n.Log != nil {
+		n.Log.stopping = true
+	}
 	n.cancel()
 	n.Hippo.Close()
 	n.Flash.Close()
@@ -454,4 +464,17 @@ func sortedStrings(m map[string]bool) []string {
 	}
 	sort.Strings(out)
 	return out
+}
+
+// noteTruncErr records a failed synchronous truncation. Production turns every truncation error but
+// "nothing to truncate" into a fatal exit; the hook hands it to the harness instead and the node lives on
+// in a state production never continues from.
+func (w *World) noteTruncErr(node int, err error) {
+	if err == nil || strings.Contains(err.Error(), "nothing to truncate") {
+		return
+	}
+	if w.truncFailed == nil {
+		w.truncFailed = map[int]bool{}
+	}
+	w.truncFailed[node] = true
 }
